@@ -260,16 +260,21 @@ func (env *Env) c16NoWrites(entry *ssa.Function) {
 				switch b.Name() {
 				case "append":
 					// the memory an append chain may write into is that of the chain's first operand
+					origins := appendOrigins(com.Args[0], map[ssa.Value]bool{})
+					if len(origins) > 1 {
+						// an accumulator (`buf = append(buf, x...)` in a loop, or merged
+						// branches): every buffer the chain may have started from
+						for _, o := range origins {
+							if c, ok := o.(*ssa.Const); ok && c.IsNil() {
+								continue
+							}
+							report("append", in, fr, e.Eval(o, fr.Ctx))
+						}
+						return
+					}
 					base := com.Args[0]
-					for {
-						c, ok := base.(*ssa.Call)
-						if !ok {
-							break
-						}
-						if bb, ok := c.Call.Value.(*ssa.Builtin); !ok || bb.Name() != "append" {
-							break
-						}
-						base = c.Call.Args[0]
+					if len(origins) == 1 {
+						base = origins[0]
 					}
 					if c, ok := base.(*ssa.Const); ok && c.IsNil() {
 						return
@@ -355,4 +360,28 @@ func (env *Env) exactCapacityGlobal(t *flow.Term) bool {
 		}
 	}
 	return true
+}
+
+// appendOrigins follows an append chain back to the buffers it may have
+// started from: through nested appends to their first operand and through
+// phis (loop-carried accumulators, merged branches), ignoring the edges that
+// lead back into the chain itself.
+func appendOrigins(v ssa.Value, seen map[ssa.Value]bool) []ssa.Value {
+	if seen[v] {
+		return nil
+	}
+	seen[v] = true
+	switch x := v.(type) {
+	case *ssa.Call:
+		if bb, ok := x.Call.Value.(*ssa.Builtin); ok && bb.Name() == "append" {
+			return appendOrigins(x.Call.Args[0], seen)
+		}
+	case *ssa.Phi:
+		var out []ssa.Value
+		for _, ed := range x.Edges {
+			out = append(out, appendOrigins(ed, seen)...)
+		}
+		return out
+	}
+	return []ssa.Value{v}
 }
